@@ -1547,3 +1547,85 @@ func c10r12(rc *core.RC) {
 		rc.Unknown("encoder-vms/ReleaseMapContext-sites", token.NoPos, "found %d calls of ReleaseMapContext in the interpreters, fewer than the 8 confirmed by hand (OpMapKey and OpMapEnd in each)", n)
 	}
 }
+
+// ---- C10.R13 the selector a path decoder puts into the shared Path is taken out again before anything can leave ----
+
+// While a path with several selectors is evaluated, mapDecoder.DecodePath and sliceDecoder.DecodePath put the next
+// selector into the compiled Path the caller handed in (finding F13 records that the Path is shared at all) and put
+// the old one back behind the nested call. Put back only behind the test of the nested call's error, a document that
+// is cut off inside an element leaves the caller's Path changed for good: every later call on that Path evaluates
+// another path. Obligation, for every store `….Path.node = child` in the decoder package: the next statement but one
+// in the same list is the store that puts the saved node back, with only the nested call between them.
+func c10r13(rc *core.RC) {
+	p := rc.P
+	n := 0
+	for _, fd := range p.Funcs("decoder") {
+		if fd.Body == nil {
+			continue
+		}
+		info := p.Info(fd)
+		isNodeStore := func(st ast.Stmt) (ast.Expr, bool) {
+			as, ok := st.(*ast.AssignStmt)
+			if !ok || len(as.Lhs) != 1 || len(as.Rhs) != 1 || as.Tok != token.ASSIGN {
+				return nil, false
+			}
+			sel, isSel := core.Unparen(as.Lhs[0]).(*ast.SelectorExpr)
+			if !isSel || sel.Sel.Name != "node" {
+				return nil, false
+			}
+			if f := core.FieldOf(info, sel.X); f == nil || f.Name() != "Path" {
+				return nil, false
+			}
+			return as.Rhs[0], true
+		}
+		var lists [][]ast.Stmt
+		ast.Inspect(fd.Body, func(m ast.Node) bool {
+			switch x := m.(type) {
+			case *ast.BlockStmt:
+				lists = append(lists, x.List)
+			case *ast.CaseClause:
+				lists = append(lists, x.Body)
+			}
+			return true
+		})
+		k := 0
+		for _, l := range lists {
+			for i, st := range l {
+				rhs, ok := isNodeStore(st)
+				if !ok {
+					continue
+				}
+				// the saved node: a local defined from ….Path.node
+				if o := core.ObjOf(info, rhs); o != nil {
+					if def := singleDef(info, fd.Body, o); def != nil {
+						if s2, isSel := core.Unparen(def).(*ast.SelectorExpr); isSel && s2.Sel.Name == "node" {
+							continue // this is the store that puts the old node back
+						}
+					}
+				}
+				n++
+				k++
+				rc.Touch(p.FuncName(fd))
+				key := fmt.Sprintf("%s/selector-store#%d put-back-before-anything-leaves", p.FuncName(fd), k)
+				good := false
+				if i+2 < len(l) {
+					if _, isBack := isNodeStore(l[i+2]); isBack {
+						if as, isAs := l[i+1].(*ast.AssignStmt); isAs && len(as.Rhs) == 1 {
+							if _, isCall := core.Unparen(as.Rhs[0]).(*ast.CallExpr); isCall {
+								good = true
+							}
+						}
+					}
+				}
+				if good {
+					rc.OK(key, st.Pos(), "the nested call is the only statement between the store and the store that puts the old selector back")
+				} else {
+					rc.Bad(key, st.Pos(), "the old selector is not put back directly behind the nested call: an error of the nested call (a document cut off inside the element) leaves the caller's compiled Path with this level's selector replaced, and every later Extract or Unmarshal with that Path evaluates another path")
+				}
+			}
+		}
+	}
+	if n < 2 {
+		rc.Unknown("decoder/Path.node-stores", token.NoPos, "found %d stores of a child selector into the shared Path, fewer than the 2 confirmed by hand", n)
+	}
+}
